@@ -371,6 +371,9 @@ func ruleR07bFor(c *Ctx, withChecker, withJS bool) {
 		if id, ok := call.Fun.(*ast.Ident); ok && id.Name == "append" {
 			isAppend = true
 		}
+		if _, ok := appendHelpers(c, "parsepasses")[calleeFunc(call, cinfo)]; ok {
+			isAppend = true // tc.declareLet(node.Name): the append, moved into a method
+		}
 		for _, a := range call.Args {
 			// the node field handed over, directly or inside the record that is appended
 			var sels []*ast.SelectorExpr
@@ -638,6 +641,13 @@ func ruleR07e(c *Ctx) {
 			if _, ok := s.(*ast.ReturnStmt); ok {
 				returns = true
 			}
+			if es, ok := s.(*ast.ExprStmt); ok {
+				if call, ok := es.X.(*ast.CallExpr); ok {
+					if _, isHelper := appendHelpers(c, "parsepasses")[calleeFunc(call, info)]; isHelper && appendAt < 0 {
+						appendAt = i
+					}
+				}
+			}
 			if as, ok := s.(*ast.AssignStmt); ok && len(as.Rhs) == 1 {
 				switch r := ast.Unparen(as.Rhs[0]).(type) {
 				case *ast.CallExpr:
@@ -764,4 +774,54 @@ func typesFuncOf(f *ssa.Function) *types.Func {
 	}
 	fn, _ := f.Object().(*types.Func)
 	return fn
+}
+
+// appendHelpers: unexported functions of a package whose body appends a value built from one of their
+// parameters to a field of their receiver (tc.locals = append(tc.locals, &local{name: name})): a call to one
+// is the append itself, moved into a function. Returns the field appended to, per function.
+func appendHelpers(c *Ctx, rel string) map[*types.Func]*types.Var {
+	out := map[*types.Func]*types.Var{}
+	p := c.Pkgs[rel]
+	if p == nil {
+		return out
+	}
+	info := p.TypesInfo
+	for _, fd := range c.allFuncDecls(rel) {
+		if fd.Name.IsExported() || len(fd.Body.List) != 1 {
+			continue
+		}
+		params := map[types.Object]bool{}
+		for _, fl := range fd.Type.Params.List {
+			for _, nm := range fl.Names {
+				params[info.Defs[nm]] = true
+			}
+		}
+		for _, st := range fd.Body.List {
+			as, ok := st.(*ast.AssignStmt)
+			if !ok || len(as.Lhs) != 1 || len(as.Rhs) != 1 {
+				continue
+			}
+			fv := fieldOf(as.Lhs[0], info)
+			call, isCall := as.Rhs[0].(*ast.CallExpr)
+			if fv == nil || !isCall || len(call.Args) < 2 {
+				continue
+			}
+			if id, ok := call.Fun.(*ast.Ident); !ok || id.Name != "append" {
+				continue
+			}
+			usesParam := false
+			ast.Inspect(call.Args[1], func(x ast.Node) bool {
+				if id, ok := x.(*ast.Ident); ok && params[info.Uses[id]] {
+					usesParam = true
+				}
+				return true
+			})
+			if usesParam {
+				if fn, ok := info.Defs[fd.Name].(*types.Func); ok {
+					out[fn] = fv
+				}
+			}
+		}
+	}
+	return out
 }
